@@ -217,6 +217,11 @@ def run(ctx):
         ctx.attempt(side_rules, ctx, bs, copies)
     # ---- R5
     ctx.attempt(archive_taint, ctx, bs)
+    # ---- R10: every path is decided once (a merge pass that loses step decides a common path twice, as two one-sided ones:
+    # the edit on one side is then overwritten by the old bytes of the other and deleted)
+    ctx.rule('C02.R10', 'every path of the union is decided exactly once: a merge pass over the two scans compares their keys in the order the maps are sorted in', floor=1)
+    from rules import C18 as _C18
+    ctx.attempt(_C18.merge_order_for, ctx, F, 'C02.R10')
     # ---- R6
     from rules import C18
     leaves = C18.table_of(ctx, F, 'C02.R6')
